@@ -1,0 +1,18 @@
+//go:build verif
+
+package verifx
+
+import (
+	air "capnproto.org/go/capnp/v3/internal/aircraftlib"
+)
+
+// AircraftFileTypeID is the id of one struct of the aircraftlib test schema; importing this
+// package registers that schema in schemas.DefaultRegistry.
+const AircraftFileTypeID = air.Z_TypeID
+
+// Aircraft test types used by the harness to go through generated accessors.
+type (
+	Z        = air.Z
+	Zdate    = air.Zdate
+	Defaults = air.Defaults
+)
